@@ -42,6 +42,7 @@ type dop struct {
 	id   int
 	smp  bool
 	ok   bool // dMode
+	var_ int  // dEnd: flag byte / path variant (see rig.end); not visible to the model
 	// filled by the simulation
 	wantEntries int  // exporter entries expected to have begun after this op
 	realTimeout bool // dShutdownX / dFlushT: use a real short timeout instead of a cancelled / lazily cancelled context
@@ -283,6 +284,9 @@ func genProgram(r *vgen.Rand, c cfg, n int) ([]dop, *sim) {
 		if o.kind == dEnd {
 			o.id = s.nid
 			s.nid++
+			if !r.Chance(1, 3) {
+				o.var_ = r.Intn(8)
+			}
 		}
 		// a burst while the worker is stuck: fill the queue to the brim and beyond
 		push(o)
@@ -294,6 +298,7 @@ func genProgram(r *vgen.Rand, c cfg, n int) ([]dop, *sim) {
 					break
 				}
 				e.id = s.nid
+				e.var_ = r.Intn(8)
 				s.nid++
 				push(e)
 			}
@@ -304,6 +309,7 @@ func genProgram(r *vgen.Rand, c cfg, n int) ([]dop, *sim) {
 						break
 					}
 					e.id = s.nid
+					e.var_ = r.Intn(8)
 					s.nid++
 					push(e)
 				}
@@ -374,7 +380,7 @@ func execProgram(c cfg, ops []dop) (res detResult) {
 		returned := within(detWatchdog, func() {
 			switch o.kind {
 			case dEnd:
-				rg.end(o.id, o.smp)
+				rg.end(o.id, o.smp, o.var_)
 			case dFlush:
 				ret = rg.flush(context.Background())
 			case dFlushX:
@@ -455,8 +461,17 @@ func emitDet(w *vgen.Writer, c cfg, ops []dop, res detResult, kind string) {
 	dobs := dropsObserved(evs)
 	var opsS, retsS, bs []string
 	nsd, nexp, ndrop := 0, 0, 0
+	var flagsS []string
 	for _, o := range ops {
 		opsS = append(opsS, o.coq())
+		if o.kind == dEnd {
+			path := "provider"
+			if o.var_%8 >= 4 {
+				path = "OnEnd(snapshot)"
+			}
+			flagsS = append(flagsS, fmt.Sprintf("%d:%#02x:%s", o.id, byte(flagsFor(o.smp, o.var_)), path))
+			w.Tally(fmt.Sprintf("det:flags=%#02x", byte(flagsFor(o.smp, o.var_))))
+		}
 	}
 	for _, r := range res.rets {
 		retsS = append(retsS, coqRet(r))
@@ -475,7 +490,7 @@ func emitDet(w *vgen.Writer, c cfg, ops []dop, res detResult, kind string) {
 	term := vgen.App("CDet", coqCfg(c), vgen.Bool(dobs), "["+strings.Join(opsS, "; ")+"]",
 		"["+strings.Join(retsS, "; ")+"]", "["+strings.Join(bs, "; ")+"]", strconv.Itoa(nsd), coqHistory(evs))
 	desc := map[string]any{"fragment": "deterministic", "qcap": c.qcap, "maxBatch": c.maxb, "blocking": c.blocking,
-		"ops": opsS, "returns": retsS, "batches": bs, "history": descHistory(evs)}
+		"ops": opsS, "span_flags": flagsS, "returns": retsS, "batches": bs, "history": descHistory(evs)}
 	if res.desync != "" {
 		desc["desync"] = res.desync
 		w.Tally("det:desync")
@@ -519,6 +534,7 @@ func runDet(w *vgen.Writer, r *vgen.Rand, n int) {
 		for i := range ops {
 			if ops[i].kind == dEnd {
 				ops[i].id = s.nid
+				ops[i].var_ = (s.nid*3 + len(p.ops)) % 8
 				s.nid++
 			}
 			if !s.allowed(ops[i].kind, ops[i].smp) {
